@@ -43,15 +43,16 @@ fn smoke() -> i32 {
 
 fn count() -> i32 {
   use mc::enumerate::*; use mc::m1::classify; use mc::prog::*;
-  for (n, r, k) in [(3usize, 1u8, 4usize), (3, 1, 5), (3, 2, 4), (4, 1, 5), (3, 2, 5)] {
+  for (n, r, k) in [(4usize, 1u8, 2usize), (4, 1, 3), (3, 1, 3), (3, 1, 4)] {
     let t0 = std::time::Instant::now();
     let mut e = EnumCfg::structural(n, r, k);
-    e.ocs = vec![OC::PieAlways];
+    e.ocs = vec![OC::Equals, OC::PieAlways];
     e.srcs = vec![]; e.guard_vals = vec![1];
-    let all = enumerate(&e, |p| p.bodies.iter().flatten().any(|s| matches!(s.op, Op::Read(..))) && p.bodies.iter().flatten().any(|s| matches!(s.op, Op::Req(..))));
+    e.mandatory_first = Some(Op::Read(0, RC::Exact));
+    let all = enumerate(&e, |_| true);
     let mut wf = 0; let mut cyc = 0;
     for p in &all { let c = classify(p); if c.wf() { wf += 1; } else if c.flags.cycle { cyc += 1; } }
-    println!("no-write ({},{},{}): {} programs, wf {}, cyclic {} in {:.1}s", n, r, k, all.len(), wf, cyc, t0.elapsed().as_secs_f64());
+    println!("sf ({},{},{}): {} programs, wf {}, cyclic {} in {:.1}s", n, r, k, all.len(), wf, cyc, t0.elapsed().as_secs_f64());
   }
   0
 }
